@@ -384,7 +384,8 @@ func check(x *explore.Exec, sc *Scn, r *result) {
 	interval := int64(sc.TryIntMS) * 1e6
 	tryDur := int64(sc.TryDurMS) * 1e6
 	attempts := make([]int, len(r.conns))
-	dialTime := make([]int64, len(r.conns)) // time connection i spent inside slowly failing dials
+	dialTime := make([]int64, len(r.conns))  // time connection i spent inside slowly failing dials
+	dialFailed := make([]bool, len(r.conns)) // some dial made for connection i failed
 	served := make([]int, len(r.conns))
 	for i := range served {
 		served[i] = -1
@@ -473,6 +474,7 @@ func check(x *explore.Exec, sc *Scn, r *result) {
 		} else {
 			fails[d.Up] = append(fails[d.Up], d.DoneAt) // a failure is remembered from the moment the dial returns
 			dialTime[ci] += d.DoneAt - d.At
+			dialFailed[ci] = true
 		}
 	}
 	// every connection: either served, or failed at the first retry check at/after try_duration
@@ -489,6 +491,11 @@ func check(x *explore.Exec, sc *Scn, r *result) {
 		}
 		if c.Err == "" {
 			x.Fail("failed-without-error", "connection %d was never connected to an upstream but Handle returned no error; %s", i, desc())
+		}
+		// ... and then fails with the last error: the error of its last failed dial, not the
+		// "no upstreams available" of a later round in which nothing could be tried
+		if dialFailed[i] && strings.Contains(c.Err, "no upstreams available") {
+			x.Fail("not-the-last-error", "connection %d made dials that failed, yet it ended with %q instead of the last dial error; %s", i, c.Err, desc())
 		}
 		// a connection that is waiting for its next attempt when its instance is unloaded gives up
 		// at that moment (the retry wait selects on the instance's context)
